@@ -163,7 +163,7 @@ type binaryReader struct {
 
 func (b *binaryReader) uvarint() int {
 	x, n := binary.Uvarint(b.b)
-	if n < 0 {
+	if n <= 0 {
 		b.b = nil
 		b.err = fmt.Errorf("malformed %s", b.typ)
 		return 0
